@@ -137,7 +137,8 @@ def run(ctx):
     if bad["PA"]:
         a = min(bad["PA"], key=lambda x: (x["scenario"]["n"], len(json.dumps(x["scenario"]))))
         sc = a["scenario"]
-        ctx.violation("probe-delayed-by-stalled-peers-%s" % ("pp-listener" if "pp" in sc["stack"] else sc["stack"]),
+        ctx.violation("probe-delayed-by-stalled-peers-%s" % (("pp-listener" if "pp" in sc["stack"] else sc["stack"]) +
+                                                               ("-rate-limited" if sc.get("rate_limit") else "")),
                       {"kind": "accept", "scenario": sc, "observed": {x: a.get(x) for x in ("probe_ms", "probe_ok", "base_ms", "lead_ms")}},
                       True,
                       "%d scenario(s); smallest: %s: %d stalled peer(s) (%s), probe latencies %s ms vs %s ms without peers"
